@@ -209,8 +209,9 @@ func (c CodecJSON) ReadNext(b []byte, r io.Reader, limit int) ([]byte, int, erro
 		braceCount int
 		isString   bool
 		isEscaped  bool
+		lead       int // white space before the message: not part of its size
 	)
-	for i := 0; i < int(limit); i++ {
+	for i := 0; i < lead+int(limit); i++ {
 		for i >= len(b) {
 			if len(b) == cap(b) {
 				// Add more capacity (let append pick how much).
@@ -253,6 +254,10 @@ func (c CodecJSON) ReadNext(b []byte, r io.Reader, limit int) ([]byte, int, erro
 				}
 			case '"':
 				isString = true
+			case ' ', '\t', '\r', '\n':
+				if braceCount == 0 && lead == i && lead < int(limit) {
+					lead++ // (bounded: a stream of nothing but white space still ends)
+				}
 			}
 		}
 	}
